@@ -8,7 +8,7 @@ LIBS = ("-lboost_timer", "-lboost_program_options", "-lboost_thread", "-ltbb", "
 RULE = ("library: every sequence of 1..L calls set_global_tbb_concurrency(n), n in {1,2,3,5,16}, each call issued from one of two translation units of the program (the header's inline function is expanded in both), each sequence in a fresh process; after every call "
         "tbb::global_control::active_value(max_allowed_parallelism) must equal n (a parallel_for runs between calls so the scheduler is live); after the sequence a library call "
         "(mcb_sva_signed_tbb on K4) must still see the last value. demos: mcb-dimacs.cpp and approx-mcb-dimacs.cpp run in-process (main renamed) for every combination of "
-        "algorithm x verbose x printcycles x cores in {1,2,3} (x k in {2,3}) with --parallel=true; active_value is sampled when the demo prints its 'Using ..._TBB' line. "
+        "algorithm options {default, fvstrees, isotrees, --signed=false alone, all three false, signed+fvstrees} x verbose x printcycles x cores in {1,2,3} (x k in {2,3}) with --parallel=true; active_value is sampled when the demo prints its 'Using ..._TBB' line. "
         "states = automaton states visited (prefixes of sequences / option combinations), transitions = calls observed")
 
 K4 = "c K4 mixed weights\np edge 4 6\ne 1 2 1\ne 1 3 2\ne 1 4 1\ne 2 3 1\ne 2 4 3\ne 3 4 1\n"
